@@ -437,8 +437,9 @@ Proof.
 Qed.
 
 (* pressure on a planar face set.  Mesh.Get_normals: the nodal normal is the normalised mean of the
-   integrated normals of the selected elements containing the node; on a planar face set every
-   element normal is a positive multiple of the same unit vector n, hence every nodal normal is n.
+   normals (summed over the Gauss points: a positive multiple nPg of the unit normal on a flat element) of
+   the selected elements containing the node; on a planar face set every element contribution is a
+   positive multiple of the same unit vector n, hence every nodal normal is n.
    The load is then the nodal array p*n_d (same value on every node), and the resultant of each
    component is p * n_d * area. *)
 Definition vscale (c : R) (v : R * R * R) : R * R * R :=
@@ -493,6 +494,66 @@ Proof.
   2:{ intros i Hi. apply in_seq in Hi. rewrite (Hv e i He). reflexivity. rewrite <- (W g Hg). lia. }
   rewrite Rsum_map_scal. fold (sumi (length (Nrow g)) (fun i => nthR i (Nrow g))).
   rewrite sumi_row, (P g Hg). ring.
+Qed.
+
+
+(* ---- pressure on NON-planar face sets: what the nodal-normal averaging does and does not give ----
+   The load is the nodal array p * nhat_j (nhat_j = normalised mean over the selected elements around node j
+   of their unit normals summed over the Gauss points - FeArray.integrate is a plain sum: positive,
+   equal weights inside an element group); by resultant_nodal_written / resultant_nodal_interp its resultant is
+   sum_e sum_p w_p|J_p| sum_j N_j(xi_p) p nhat_j  =  p * sum_j a_j nhat_j  (a_j = lumped nodal area).
+   The exact resultant is p * sum_e (area vector of e).  They agree on planar sets
+   (pressure_planar_resultant) and NOT in general: neither on a kinked open patch nor on a closed
+   surface (where the exact resultant vanishes). *)
+Lemma vnormalize_rational (a b d k : R) : 0 < k -> a * a + b * b + d * d = k * k ->
+  vnormalize (a, b, d) = (a / k, b / k, d / k).
+Proof.
+  intros Hk H. unfold vnormalize, vnorm, vscale. rewrite H.
+  replace (k * k) with (k ^ 2) by ring. rewrite sqrt_pow2 by lra.
+  f_equal; [f_equal|]; field; lra.
+Qed.
+
+(* kinked open patch: two unit segments with unit normals n1 = (3/5, 4/5), n2 = (-3/5, 4/5).
+   nodal normals by the averaging of Mesh.Get_normals: n1, (0, 1), n2; lumped lengths 1/2, 1, 1/2 *)
+Ltac vec3 := simpl; f_equal; [f_equal|]; field.
+
+Theorem pressure_kinked_patch_refuted :
+  (* the ridge node: two adjacent elements of length 1 with normals (3/5,4/5) and (-3/5,4/5) *)
+  vnormalize (vscale (/ 2) (vsum [vscale 1 (3/5, 4/5, 0); vscale 1 (-3/5, 4/5, 0)])) = (0, 1, 0) /\
+  (* y-resultant of the nodal-array load (per unit pressure) vs the exact one *)
+  (1/2) * (4/5) + 1 * 1 + (1/2) * (4/5) <> 1 * (4/5) + 1 * (4/5).
+Proof.
+  split; [|lra].
+  assert (E : vscale (/ 2) (vsum [vscale 1 (3/5, 4/5, 0); vscale 1 (-3/5, 4/5, 0)]) = (0, 4/5, 0)) by vec3.
+  rewrite E, (vnormalize_rational 0 (4/5) 0 (4/5)) by lra. vec3.
+Qed.
+
+(* closed surface: isosceles triangle with base normal (0,-1) (length 6/5) and side normals
+   (4/5,3/5), (-4/5,3/5) (length 1): the area vectors sum to zero (exact resultant of a uniform pressure
+   on a closed surface).  Nodal normals by the averaging of Mesh.Get_normals (mean of the element
+   normals summed over the Gauss points, normalised): apex (0,1); base corners the normalised
+   (+-2/5, -1/5).  Lumped lengths: apex 1, corners 11/10: the y-resultant per unit pressure is
+   1 - (11/25)/sqrt(1/5) <> 0. *)
+Theorem pressure_closed_surface_refuted :
+  let r := sqrt ((2/5) * (2/5) + (-1/5) * (-1/5) + 0 * 0) in
+  vadd (vscale (6/5) (0, -1, 0)) (vadd (vscale 1 (4/5, 3/5, 0)) (vscale 1 (-4/5, 3/5, 0))) = (0, 0, 0) /\
+  vnormalize (vscale (/ 2) (vsum [(4/5, 3/5, 0); (-4/5, 3/5, 0)])) = (0, 1, 0) /\
+  vscale (/ 2) (vsum [(0, -1, 0); (4/5, 3/5, 0)]) = (2/5, -1/5, 0) /\
+  vnormalize (2/5, -1/5, 0) = (/ r * (2/5), / r * (-1/5), / r * 0) /\
+  1 * 1 + 2 * ((11/10) * (/ r * (-1/5))) <> 0.
+Proof.
+  intros r. split; [vec3|]. split.
+  { assert (E : vscale (/ 2) (vsum [(4/5, 3/5, 0); (-4/5, 3/5, 0)]) = (0, 3/5, 0)) by vec3.
+    rewrite E, (vnormalize_rational 0 (3/5) 0 (3/5)) by lra. vec3. }
+  split; [vec3|]. split; [reflexivity|].
+  assert (Hrr : r * r = 1/5).
+  { unfold r. rewrite sqrt_sqrt; lra. }
+  assert (Hr : 0 < r).
+  { unfold r. apply sqrt_lt_R0. lra. }
+  intro H. set (q := / r) in *.
+  assert (Hq : r * q = 1) by (unfold q; apply Rinv_r; lra).
+  assert (Hq' : q = 25/11) by lra.
+  rewrite Hq' in Hq. assert (Hr' : r = 11/25) by lra. rewrite Hr' in Hrr. lra.
 Qed.
 
 (* only loaded elements: a node outside every integrated element gets nothing *)
